@@ -24,6 +24,7 @@ From ASModel Require Import Base State Orderings_gen Step Run Progress Hist Inv 
 From ASModel Require Import GenDefs Gen1 Gen2 Gen EnvDefs Env4 Env AccDefs Acc1 Acc2 Acc3 Acc4 Acc5 Acc6 Acc7 Acc.
 From ASModel Require Import ProtDefs Prot1 Prot11 Prot16 Prot Typed LinDefs Lin2 Lin Safe1 Safe2 Safe7 Safe8 Safe Main Alive.
 From ASModel Require Import LinCache LinCas1 LinCas2 LinCas3 LinCas4 LinCas5 LinCas6 LinCas LinCasR1 LinCasR4 LinCasRcu LinCasMain.
+From ASModel Require Import Stale2 Stale2Inv Stale2W.
 
 Theorem C06_first_attempt_on_loaded_value :
   forall cf l c m p d, rcu_attempt_shape c p (snd (resume cf l (WRcuLoad c m) (RGuard p d))).
@@ -79,3 +80,34 @@ Print Assumptions C06_new_value_exchanged_against_p.
 Print Assumptions C06_retry_or_return.
 Print Assumptions C06_guard_keeps_identity.
 Print Assumptions C06_rcu_linearizable.
+
+(** ** With the four weakened loads of [Stale2.step_stale2] (see Props/C01.v): the loads that
+    compare_and_swap and rcu perform take the same fast path, whose first read and slot scan may be
+    stale; [one_write_s2], [no_write_s2], ... are the run notions of the original theorems over
+    [step_stale2]. *)
+Theorem C06_rcu_linearizable_stale2 :
+  forall cf inits progs sched t i c m h2 pa pb xa tb xb,
+    let s0 := init_state inits progs in
+    let St := fun k => StS2 cf s0 sched k in
+    RunOKS2 cf inits progs sched ->
+    nth_error (t_prog (thr s0 t)) (N.to_nat i) = Some (CRcu c m h2) -> nonpanic m = true ->
+    (pa <= pb)%nat ->
+    nth_error sched pa = Some (t, xa) ->
+    t_status (thr (St pa) t) = Running -> t_stack (thr (St pa) t) = [] -> t_cmdi (thr (St pa) t) = i ->
+    nth_error sched pb = Some (tb, xb) ->
+    t_cmdi (thr (St pb) t) = i -> t_cmdi (thr (St (S pb)) t) = i + 1 ->
+    exists q nw j, hnd (St (S pb)) h2 = HOwned q /\
+      one_write_s2 cf s0 sched t c q nw pa pb j /\
+      rcu_new (made_to_s2 cf s0 sched t pa (S pb)) m q nw.
+Proof. exact rcu_linearizable_stale2. Qed.
+
+Theorem C06_frame_guard_identity_stale2 :
+  forall cf s t t' x p v d,
+    GenBound s -> ProgOK s -> alloc_ok s t' x -> stale2_ok s t' x -> Master s ->
+    In p (t_stack (thr s t)) -> In p (t_stack (thr (fst (step_stale2 cf s t' x)) t)) ->
+    guard_frame p = Some (v, d) -> valid v ->
+    heap (sh (fst (step_stale2 cf s t' x))) v = heap (sh s) v /\ heap (sh s) v <> None.
+Proof. exact frame_guard_identity_stale2. Qed.
+
+Print Assumptions C06_rcu_linearizable_stale2.
+Print Assumptions C06_frame_guard_identity_stale2.
